@@ -627,7 +627,8 @@ ROW_TYPES = dict(
 def edit_strategy(draw):
     kind = draw(st.sampled_from(
         ["cell", "cell", "cell", "md_lastbyte", "md_lastbyte", "append", "delete", "schema", "ts_schema",
-         "ts_metadata", "time_units", "L", "refseq", "refseq", "prov_cell", "prov_cell", "none"]))
+         "ts_metadata", "time_units", "time_units", "L", "L", "refseq", "refseq", "refseq", "prov_cell",
+         "prov_cell", "none"]))
     e = dict(kind=kind, table=draw(st.sampled_from(S.TABLES)), row=draw(st.integers(0, 7)),
              col=draw(st.integers(0, 7)))
     e["vals"] = dict(
@@ -912,7 +913,8 @@ SUBCHECKS = [
     SubCheck("C05.equals", run_equals, strategy=equals_case, quick=1200, thorough=36000,
              rule="the two collections differ in at least one aspect (row value, metadata, schema, top-level "
                   "metadata/schema, provenance record/timestamp, reference sequence, time units, length)",
-             floors={"aspect_tbl": 0.15, "aspect_tbl_md": 0.1, "aspect_ts_md": 0.03, "aspect_prov": 0.03,
-                     "aspect_prov_ts": 0.03, "aspect_ref": 0.02, "aspect_ref_md": 0.01,
-                     "aspect_time_units": 0.02, "aspect_L": 0.02, "some_option_set_equalises": 0.3}),
+             floors={"aspect_tbl": 0.15, "aspect_tbl_md": 0.1, "aspect_ts_md": 0.02, "aspect_prov": 0.03,
+                     "aspect_prov_ts": 0.03, "aspect_ref": 0.02, "aspect_ref_md": 0.005,
+                     "aspect_time_units": 0.015, "aspect_L": 0.015, "some_option_set_equalises": 0.3,
+                     "no_difference": 0.03, "ts_level": 0.03}),
 ]
